@@ -207,6 +207,10 @@ def oracle_i(case, out):
 
 class C09(diffcheck.DiffProp):
     pid = "C09"
+    manifest = dict(
+        text="Unbounded Coq theorems (all programs of wheel operations, all key sets including equal deadlines, all clock sequences, monotone or not) about an executable model of TimerRuntime, Sleep, Timeout, Interval and the Runtime::poll fragment. The model is tied to compio-runtime on every run by an exact differential check of the real timer wheel on a real-time slot clock, end-to-end programs on a real Runtime with tolerance-free one-sided oracles, and exact Interval arithmetic read back from the runtime's wheel.",
+        note="Trusted: the Coq kernel; ExtrOcamlBasic extraction plus the OCaml driver; the Rust harness (slot clock by spin-wait on Instant::now, counting wakers, nominal clock of the Runtime programs); hook c6d33ab (forwarding shims only); std BTreeMap (ordered map, split_off, in-order iteration), TimerKey's derived Ord, and Instant being a monotone total order with saturating subtraction (modelled, not verified). The deadline == now boundary is proved on the model but cannot be exercised dynamically (1 ns window). That the driver returns from poll(timeout) on time is checked only one-sidedly (never early: exact; within a 5 s watchdog), not proved. No axioms.",
+        technique="Coq proof (induction over programs of timer-wheel operations) + differential correspondence on the real wheel and runtime")
     prop_file = "prop/C09.v"
     model_name = "c09"
     harness_bin = "c09"
